@@ -34,6 +34,20 @@ MODELS["const:numpy.inf"] = const_inf
 MODELS["const:numpy.nan"] = const_nan
 
 
+@model("jax.numpy.all", "numpy.all")
+def _jnp_all(ip, x, *a, **k):
+    if isinstance(x, bool) or (is_z3(x) and z3.is_bool(x)):
+        return x  # reduction of an elementwise predicate that is modelled per array
+    raise Unsupported("jnp.all on a non-boolean value")
+
+
+@model("jax.numpy.zeros_like", "numpy.zeros_like")
+def _zeros_like(ip, x, *a, **k):
+    if is_z3(x) and x.sort() == U:
+        return ip.uf("zeros_like", x)
+    raise Unsupported("zeros_like")
+
+
 @model("jax.numpy.isfinite", "numpy.isfinite")
 def _isfinite(ip, x):
     if is_fp(x):
@@ -42,6 +56,10 @@ def _isfinite(ip, x):
         return True  # A-REAL: a real-sorted value has no infinities / NaN
     if isinstance(x, (int, float)):
         return x == x and x not in (float("inf"), float("-inf"))
+    if is_z3(x) and x.sort() == U:
+        # an array of unknown content: whether all its entries are finite is a fact about the array (some arrays contain +-inf, e.g. the
+        # image of a support-boundary value under an unconstraining bijector) - an uninterpreted predicate, decided per path
+        return z3.Function("all_entries_finite", U, z3.BoolSort())(x)
     raise Unsupported("isfinite")
 
 
@@ -257,9 +275,28 @@ def _jit(ip, f=None, **kw):
     return f
 
 
+DTYPE_OF = z3.Function("dtype_of", U, U)
+CAST = z3.Function("cast_to_dtype", U, U, U)
+
+
 @model("jax.numpy.array", "jax.numpy.asarray", "numpy.array", "numpy.asarray")
 def _array(ip, x, *a, **k):
-    return x
+    d = k.get("dtype", a[0] if a else None)
+    if d is None:
+        return x
+    if is_z3(x) and x.sort() == U and is_z3(d) and d.sort() == U:
+        # a cast is the identity when the value already has that dtype; otherwise some other array (truncation, rounding, widening)
+        r = CAST(x, d)
+        ip.ctx.assume(z3.Implies(d == DTYPE_OF(x), r == x))
+        return r
+    return x  # python scalars / concrete dtypes: value-preserving conversion (A-REAL)
+
+
+@model("jax.numpy.result_type", "numpy.result_type")
+def _result_type(ip, *xs):
+    if len(xs) == 1 and is_z3(xs[0]) and xs[0].sort() == U:
+        return DTYPE_OF(xs[0])
+    raise Unsupported("result_type")
 
 
 # ---------------------------------------------------------------------- arrays
